@@ -456,7 +456,7 @@ def variant_and_opid_part():
         if len(names) != len(set(names)) or not it or fields(it[0]) != ["zip"] or vfields != [("email", "phone"), ("found_at",)]:
             viol.append((cases[-1], f"variant / member name clash: PetOwner.info is typed {h.get('info')!r} with members {fields(it[0]) if it else None} (declared: zip); the variants of Pet carry {vfields} (declared: email+phone / found_at); items {sorted(names)}"))
     ok = {"204": {"description": "n"}}
-    for ids in (["getPet", "getPet", "getPet_2"], ["get-pet", "get_pet", "getPet", "get_pet_2", "get_pet_3"], ["list", "list_2", "list", "list"]):
+    for ids in (["shape_list", "shape_type"], ["api_match_all", "api_type_all", "api_fn_all"], ["getPet", "getPet", "getPet_2"], ["get-pet", "get_pet", "getPet", "get_pet_2", "get_pet_3"], ["list", "list_2", "list", "list"]):
         cases.append(("opids", tuple(ids)))
         paths = {f"/p{k}": {"get": {"operationId": oid, "responses": ok}} for k, oid in enumerate(ids)}
         sp = os.path.join(d, "ops.json")
@@ -467,7 +467,7 @@ def variant_and_opid_part():
             viol.append((cases[-1], f"operation ids {ids}: generator failed rc={rc} {txt.strip()[-200:]}"))
             continue
         ctext = open(os.path.join(outp, "client.rs")).read()
-        methods = re.findall(r"pub async fn (\w+)\s*\(", ctext)
+        methods = re.findall(r"pub async fn ((?:r#)?\w+)\s*\(", ctext)
         docs = re.findall(r"\* Path: `GET (/p\d+)`", ctext)
         if len(methods) != len(ids) or len(set(methods)) != len(methods) or sorted(set(docs)) != sorted(paths):
             viol.append((cases[-1], f"operation ids {ids}: the client has the methods {methods} for the paths {sorted(set(docs))}; {len(ids)} operations ({sorted(paths)}) were declared"))
